@@ -18,7 +18,7 @@ def run(ck):
                       "(all model behaviours that end in a lost wake-up + a seeded sample of the others) plus seeded random systems; "
                       "non-trivial = at least one message sent.")
     ck.assumptions += ["components drain every port at every activation unless marked stalling", "quiescence = Run() returned"]
-    cfgs = ["TickImpl_q1.cfg", "TickImpl_q2.cfg"] if q else ["TickImpl_t1.cfg", "TickImpl_t2.cfg", "TickImpl_t3.cfg", "TickImpl_t4.cfg"]
+    cfgs = ["TickImpl_q1.cfg", "TickImpl_q2.cfg"] if q else ["TickImpl_t1.cfg", "TickImpl_t2.cfg", "TickImpl_t3.cfg", "TickImpl_t4.cfg", "TickImpl_t5.cfg"]
     lost, ok = tickcheck.model_behaviours(ck, cfgs, workers=8 if q else 16, cap=2000 if q else 40000)
     ck.note("model: %d behaviours end with a lost wake-up (hypotheses), %d do not" % (len(lost), len(ok)))
     systems = [tickcheck.system_from_behaviour(b) for b in lost + ok]
@@ -29,7 +29,7 @@ def run(ck):
     ck.note("hypotheses reproduced on real code: %d of %d" % (reproduced, len(lost)))
     ck.cov["hypotheses"] = len(lost)
     ck.cov["hypotheses_reproduced"] = reproduced
-    cases, out = tickcheck.run_and_monitor(ck, "random", random=300 if q else 6000, max_comps=5, max_msgs=10)
+    cases, out = tickcheck.run_and_monitor(ck, "random", random=300 if q else 6000, max_comps=5, max_msgs=10, stress=15 if q else 300)
     ck.cov["distinct_nontrivial"] += out["systems"]
     tickcheck.report_cases(ck, cases, {"C09"}, "random")
     ck.cov["exhaustive"] = True
